@@ -23,7 +23,7 @@ type Mutated struct {
 var DefectClasses = []string{
 	"substitute", "transpose", "count-delete", "count-insert", "count-any", "foreign-word", "case",
 	"affix", "junk-token", "separator", "checksum-only", "last-word", "none", "lead-zero-wrongsum",
-	"empty-token", "drop-word-keep-separator", "strip-marks", "add-mark",
+	"empty-token", "drop-word-keep-separator", "strip-marks", "add-mark", "invisible-affix", "count-wrap",
 }
 
 func join(l ref.Lang, idx []int, sep string) string {
@@ -202,6 +202,26 @@ func Defect() *rapid.Generator[Mutated] {
 			mark := rapid.SampledFrom([]rune{0x0301, 0x0303, 0x0308, 0x3099, 0x309a, 0x0327}).Draw(t, "mark")
 			words[p] = string(r[:at]) + string(mark) + string(r[at:])
 			m.Text, m.Desc = strings.Join(words, " "), fmt.Sprintf("combining mark %U added to word %d", mark, p)
+		case "invisible-affix":
+			// an invisible / format character glued to a word (BOM at the very start, zero-width
+			// joiners, soft hyphen, word joiner, variation selector)
+			inv := rapid.SampledFrom([]string{"\ufeff", "\u200b", "\u200c", "\u200d", "\u00ad", "\u2060", "\u180e", "\ufe0f", "\u034f", "\u061c", "\u200e"}).Draw(t, "inv")
+			p := rapid.SampledFrom([]int{0, 0, 0, n - 1, rapid.IntRange(0, n-1).Draw(t, "pos")}).Draw(t, "which")
+			if rapid.IntRange(0, 3).Draw(t, "suffix") == 0 {
+				words[p] += inv
+			} else {
+				words[p] = inv + words[p]
+			}
+			m.Text, m.Desc = strings.Join(words, " "), fmt.Sprintf("invisible %+q glued to word %d", inv, p)
+		case "count-wrap":
+			// a count that equals an acceptable one modulo 2^8 or 2^16, built on a valid sentence
+			base := rapid.SampledFrom([]int{256, 256, 256, 512, 512, 256, 256, 512, 256, 65536}).Draw(t, "wrap")
+			extra := make([]string, base)
+			filler := ref.Golden(l)[idx[0]]
+			for i := range extra {
+				extra[i] = filler
+			}
+			m.Text, m.Desc = strings.Join(append(extra, words...), " "), fmt.Sprintf("%d extra words in front of a valid %d-word sentence (%d words)", base, n, base+n)
 		case "lead-zero-wrongsum":
 			// sentences whose entropy starts with zero bytes and whose checksum is the one of
 			// the entropy with its leading zero bytes dropped (what a big-integer
